@@ -179,6 +179,11 @@ int main(int argc, char** argv) {
 			arrays_grid<double, 1>(s1, only); arrays_grid<double, 2>(s2, only); arrays_grid<double, 3>(s3, only);
 			arrays_grid<std::string, 1>(s1, only); arrays_grid<std::string, 2>(s2, only); arrays_grid<std::string, 3>(s3, only);
 			arrays_grid<multi::array<int, 1>, 1>(s1, only); arrays_grid<multi::array<int, 1>, 2>(s2, only);
+			// element counts around the powers of two a blocked / buffered save-load loop would use (flat element block of array, array_ref): 2^k - 1, 2^k, 2^k + 1, 2*2^k
+			std::vector<std::vector<idx>> big1, big3 = {{8, 8, 8}, {4, 8, 16}, {8, 8, 9}, {16, 16, 4}};
+			for(idx pw : {idx{64}, idx{128}, idx{256}, idx{512}, idx{1024}, idx{4096}}) { big1.push_back({pw - 1}); big1.push_back({pw}); big1.push_back({pw + 1}); big1.push_back({2*pw}); big1.push_back({3*pw}); }
+			if(thorough) { for(idx pw : {idx{2048}, idx{8192}, idx{16384}, idx{65536}}) { big1.push_back({pw - 1}); big1.push_back({pw}); big1.push_back({pw + 1}); } big3.push_back({16, 16, 16}); big3.push_back({32, 32, 4}); }
+			arrays_grid<int, 1>(big1, only); arrays_grid<double, 1>(big1, only); arrays_grid<int, 3>(big3, only); arrays_grid<std::string, 3>({{8, 8, 8}}, only);
 		}
 		if(only.empty() || v) {
 			int depth = thorough ? 3 : 2;
